@@ -41,6 +41,10 @@ class Abort(Exception):
     pass
 
 
+class Cols(list):
+    """several columns at once (a vectorised expression over x[:, a:b:c] or the whole input): one value per column"""
+
+
 OPS = {ast.Add: operator.add, ast.Sub: operator.sub, ast.Mult: operator.mul, ast.Div: operator.truediv, ast.Mod: operator.mod,
        ast.FloorDiv: operator.floordiv, ast.LShift: operator.lshift, ast.RShift: operator.rshift, ast.BitAnd: operator.and_,
        ast.BitOr: operator.or_, ast.BitXor: operator.xor}
@@ -50,8 +54,10 @@ class Interp:
     """interprets one bit-slicing function: locals, one or more output arrays indexed [:, col], an input seen through
     `X = param.reshape(...)` as columns of 8-bit source words."""
 
-    def __init__(self, func, consts=None, params=None, skip=None, env=None):
+    def __init__(self, func, consts=None, params=None, skip=None, env=None, input_cols=None):
         self.func = func
+        self.input_cols = input_cols      # number of columns of the input view, when the rule knows it (vectorised reads)
+        self.ncols = {}
         self.env = dict(consts or {})
         self.env.update(env or {})
         self.params = set(params if params is not None else func.params)
@@ -88,7 +94,18 @@ class Interp:
                 return None
             if isinstance(tgt, ast.Subscript):
                 arr, col = self.colref(tgt)
-                self.arrays[arr][col] = self.trunc(self.ev(st.value), arr)
+                v = self.value(self.ev(st.value))
+                if isinstance(col, list):
+                    if not isinstance(v, Cols):
+                        v = Cols([v] * len(col))
+                    if len(v) != len(col):
+                        raise Abort(f'{len(v)} columns stored into {len(col)}')
+                    for c_, v_ in zip(col, v):
+                        self.arrays[arr][c_] = self.trunc(v_, arr)
+                    return None
+                if isinstance(v, Cols):
+                    raise Abort('several columns stored into one')
+                self.arrays[arr][col] = self.trunc(v, arr)
                 return None
         if isinstance(st, ast.AugAssign):
             if isinstance(st.target, ast.Name):
@@ -140,6 +157,14 @@ class Interp:
                 if w is None:
                     raise Abort(f'array dtype {dtxt} not modelled')
                 self.arrays[name] = {}
+                try:
+                    shp = v.args[0] if v.args else None
+                    if isinstance(shp, ast.Tuple) and len(shp.elts) == 2:
+                        nc = self.ev(shp.elts[1])
+                        if isinstance(nc, int):
+                            self.ncols[name] = nc
+                except (Abort, KeyError, TypeError):
+                    pass
                 self.zeroed = getattr(self, 'zeroed', set())
                 if last == 'zeros':
                     self.zeroed.add(name)
@@ -174,10 +199,26 @@ class Interp:
         idx = sub.slice
         if not (isinstance(idx, ast.Tuple) and len(idx.elts) == 2 and isinstance(idx.elts[0], ast.Slice)):
             raise Abort('store is not of the form a[:, col]')
+        if isinstance(idx.elts[1], ast.Slice):
+            if arr not in self.ncols:
+                raise Abort(f'strided store into {arr}: number of columns unknown')
+            sl = idx.elts[1]
+            b = [None if x is None else self.ev(x) for x in (sl.lower, sl.upper, sl.step)]
+            if any(x is not None and not isinstance(x, int) for x in b):
+                raise Abort('slice bound not constant')
+            return arr, list(range(*slice(*b).indices(self.ncols[arr])))
         c = self.ev(idx.elts[1])
         if not isinstance(c, int):
             raise Abort('column index not constant')
         return arr, c
+
+    def value(self, v):
+        """the whole input view used as a value: all its columns"""
+        if isinstance(v, tuple) and len(v) == 2 and v[0] == 'INPUT':
+            if self.input_cols is None:
+                raise Abort('whole-input expression: number of input columns unknown')
+            return Cols([Bits([('src', v[1], c, i) for i in range(8)], 8) for c in range(self.input_cols)])
+        return v
 
     def ev(self, e):
         if isinstance(e, ast.Constant):
@@ -230,10 +271,26 @@ class Interp:
                 if isinstance(b, tuple) and b[0] == 'INPUT':
                     if not (isinstance(e.slice, ast.Tuple) and len(e.slice.elts) == 2 and isinstance(e.slice.elts[0], ast.Slice)):
                         raise Abort('input read is not of the form x[:, col]')
+                    if isinstance(e.slice.elts[1], ast.Slice):
+                        if self.input_cols is None:
+                            raise Abort('sliced input read: number of input columns unknown')
+                        sl = e.slice.elts[1]
+                        bb = [None if x is None else self.ev(x) for x in (sl.lower, sl.upper, sl.step)]
+                        return Cols([Bits([('src', b[1], c, i) for i in range(8)], 8) for c in range(*slice(*bb).indices(self.input_cols))])
                     col = self.ev(e.slice.elts[1])
                     return Bits([('src', b[1], col, i) for i in range(8)], 8)
                 if base.id in self.arrays:
                     arr, col = self.colref(e)
+                    if isinstance(col, list):
+                        out = Cols()
+                        for c_ in col:
+                            if c_ not in self.arrays[arr]:
+                                if arr not in getattr(self, 'zeroed', set()):
+                                    raise Abort(f'read of unset column {arr}[:, {c_}]')
+                                out.append(const(0, self.width[arr]))
+                            else:
+                                out.append(self.arrays[arr][c_])
+                        return out
                     if col not in self.arrays[arr]:
                         if arr in getattr(self, 'zeroed', set()):
                             return const(0, self.width[arr])
@@ -247,7 +304,17 @@ class Interp:
         if isinstance(e, ast.BinOp):
             return self.binop(e.op, self.ev(e.left), self.ev(e.right))
         if isinstance(e, ast.Compare) and len(e.ops) == 1:
-            l, r = self.ev(e.left), self.ev(e.comparators[0])
+            l, r = self.value(self.ev(e.left)), self.ev(e.comparators[0])
+            if isinstance(l, Cols):
+                out = Cols()
+                for x in l:
+                    if not (isinstance(x, Bits) and isinstance(e.ops[0], ast.NotEq) and r == 0):
+                        raise Abort('comparison on data')
+                    nz = [b for b in x.bits if b != 0]
+                    if len(nz) != 1:
+                        raise Abort('!= 0 on a multi-bit value')
+                    out.append(Bits([nz[0]], 1))
+                return out
             if isinstance(l, Bits):
                 if isinstance(e.ops[0], ast.NotEq) and r == 0:
                     nz = [b for b in l.bits if b != 0]
@@ -260,6 +327,12 @@ class Interp:
         raise Abort('expression ' + norm(e)[:50])
 
     def binop(self, op, a, b):
+        a, b = self.value(a), self.value(b)
+        if isinstance(a, Cols) or isinstance(b, Cols):
+            n = len(a) if isinstance(a, Cols) else len(b)
+            if isinstance(a, Cols) and isinstance(b, Cols) and len(a) != len(b):
+                raise Abort('column counts differ')
+            return Cols([self.binop(op, a[i] if isinstance(a, Cols) else a, b[i] if isinstance(b, Cols) else b) for i in range(n)])
         if not isinstance(a, Bits) and not isinstance(b, Bits):
             if type(op) not in OPS:
                 raise Abort('operator ' + type(op).__name__)
